@@ -33,6 +33,12 @@
 // error values, nil, run-time errors, a second panic raised while the first one unwinds; every one of them is "panicked");
 // async-matrix/<timing>, random-async/<kind> (async.go: the handler settles the message from a goroutine it started, before /
 // exactly around / after the moment the chain returns and the Router sends its own settlement; many messages per case).
+// errval-matrix/<site>, random-errval/<kind> (errvals.go: the handler function, a middleware of the chain or the publisher returns error
+// values of every shape - plain, wrapped by %w / pkg/errors / Join / multierror, application types whose Cause() or Unwrap() is nil,
+// typed nil pointers, non-comparable types, empty texts, Is/As methods that answer unusually; every one of them is "an error");
+// buffered-matrix/<end>, random-buffered/<end> (buffered.go: the subscriber hands out a buffered channel that is filled ahead of the
+// consumer and the subscription ends while messages sit in channel buffers between subscriber and handler; every message that is no
+// longer in the subscriber's own channel must end up settled).
 // The oracle is the same for all classes.
 package c02
 
@@ -800,11 +806,31 @@ func init() {
 			"been made): exactly one of Acked()/Nacked() is closed (both-settled, settles); if the handler's own call returned true the final state is its kind (self-settlement-overridden); if it returned false the final state is the "+
 			"settlement the Router owes by the Ack-iff rule; a call made after a settlement was visible returns true iff it is of the same kind (self-settlement); nothing settles the message before the handler function returned unless "+
 			"its own goroutine did; no Ack is visible inside Publish before the handler's goroutine started its call. "+
+			"Class errval (%d enumerated cells + random part): the chain or the publisher fails with an error VALUE of every shape = {%d values: errors.New (also with empty text, printf verbs, 64 KiB text), fmt.Errorf, pkg/errors New / Errorf, "+
+			"context.Canceled, context.DeadlineExceeded, io.EOF, message.ErrOutputInNoPublisherHandler, wrapped by %%w (once, twice, two operands, nil operand, around context.Canceled), by pkg/errors Wrap / WithStack / WithMessage (also mixed with %%w), errors.Join (one / several / "+
+			"nested / with context.Canceled), hashicorp multierror (filled, empty, typed nil pointer), 500-deep %%w and 200-deep pkg/errors chains, application error types with a Cause() method = {cause nil (pointer / value receiver), cause set, cause context.Canceled, a chain of "+
+			"them that ends in nil, a typed nil pointer as cause, Cause() that panics} and pkg/errors Wrap / WithStack / WithMessage, %%w and errors.Join around such a value, types with Unwrap() error = {nil, set, context.Canceled, typed nil pointer}, Unwrap() []error = {nil, empty, nil elements, "+
+			"with context.Canceled}, types with both accessors, typed nil pointers in a non-nil interface (bare, wrapped), non-comparable dynamic types (struct with a slice, map / slice / func types, also nil ones, also wrapped), zero values of int / bool / string / struct{} types, "+
+			"Error() returning \"\" / \"<nil>\" / panicking, Is() answering true for every target (bare, wrapped) / panicking, As() answering true for every target} x returned by {the handler function together with 0 / 1 / 3 messages (with / without its own Ack or Nack before), "+
+			"a router-level / handler-level middleware after the inner handler returned (whatever it returned; the messages of the inner handler are returned together with the error), the Publish call made for the outputs (every call / the first call for the message)} x "+
+			"{AddHandler+publisher, AddNoPublisherHandler, AddHandler+nil publisher}; 0..2 further messages follow the probe; random part: the random one-handler batch in which 60%% of the messages fail with a random value at a random site. Judged by the rules of all classes: every one "+
+			"of them is 'an error' - the message is nacked (unless the chain had settled it itself) and nothing that was returned together with the error is published; a rejected Publish call means Nack (counters messages_with_drawn_error_value, error_value_drawn_for_*). "+
+			"Error types whose Unwrap() or Cause() chain is a cycle are left out (errors.Is, which the pinned Router calls on every handler error, does not return from the former). "+
+			"Class buffered (%d enumerated cells + random part): the scripted subscriber hands out a BUFFERED channel (capacity 1, 2, 8, 64; random part 1..64) and fills it ahead of the consumer, one sending goroutine per subscription; like every watermill subscriber it stops sending "+
+			"and closes the channel when the subscription's context is cancelled or Close is called, leaving in the buffer what is there. The subscription ends = {Handler.Stop, Router.Close, Run context cancelled, subscriber closed from outside} while messages sit in channel buffers between "+
+			"subscriber and handler = {the end is triggered by the sending goroutine between two emissions while messages are flowing; handler.run is parked at hook point router.run.received right after it received its 1st..3rd message; a subscriber decorator of the Router is "+
+			"parked at hook point decorator.sub.before_out holding a message - in both parked variants the sender goes on until every buffer behind the parked goroutine is full (process quiescent), then the end is triggered, the harness waits until it has gone through the Router "+
+			"as far as it can (quiescent again) and only then lets the parked goroutine go on} x {with / without a second handler} x 0..2 subscriber decorators x handler kinds x random middleware x random handler / publisher behaviours per message (30%% of the cases: 1..2 of the "+
+			"first messages are held inside the handler / inside Publish until the end has gone through). Taken = the messages that are no longer in the subscriber's own channel: placed (sends into the channel that completed) minus len(channel) sampled after the sender stopped, at "+
+			"quiescence after Router.Close returned; a channel is FIFO, so these are the first placed-len messages in emission order. Every taken message must be acked or nacked by then (settles, both-settled); one whose handler chain was invoked is judged by the rules of all classes "+
+			"(Ack iff ..., publish-after-error, ack-before-publish, self-settlement-overridden ...); one whose chain was not invoked (the Router could not deliver it any more) must not be acked (ack-unhandled). Messages still in the subscriber's buffer are not judged. "+
+			"Counters: taken_from_buffered_channel, taken_and_handled, taken_nacked_without_handling, left_in_subscriber_buffer, in_subscriber_buffer_when_subscription_ended, buffered_cases_with_full_buffer_at_end, buffered_goroutine_parked_when_subscription_ended. "+
+			"A buffered case is non-trivial when messages were in the subscriber's channel buffer when the subscription ended (or were left there), the Router had taken messages and at least one of them was handled. "+
 			"A case is non-trivial when every emitted message "+
 			"was taken, handled and judged (and, for multi-message barrier cases, >=2 handlers were observed in flight together; for class end, >=1 message was in flight when the subscription "+
 			"ended and the end was observed to have propagated; for classes multi and names, >=2 handlers handled messages; for class names, "+
 			"additionally >=1 handler has an outcome-changing middleware of its own and >=1 has no middleware of its own); distinct = distinct "+
-			"(cell, multiplicity) for the matrices, distinct (class, configuration, per-message behaviours, settlement order) for random batches.", len(cells), len(hbehs), len(mwMatrix), len(endCells), len(multiCells), len(nameCells), len(topicCells), len(panicCells), len(panicVals)-1, len(asyncCells)),
+			"(cell, multiplicity) for the matrices, distinct (class, configuration, per-message behaviours, settlement order) for random batches.", len(cells), len(hbehs), len(mwMatrix), len(endCells), len(multiCells), len(nameCells), len(topicCells), len(panicCells), len(panicVals)-1, len(asyncCells), len(errCells), len(errVals)-1, len(bufCells)),
 		Assumptions: []string{
 			"panic(nil) follows the Go >= 1.21 semantics of the harness module (recover() returns *runtime.PanicNilError)",
 			"a message counts as taken by the Router when the scripted subscriber's channel send completed (it was received by the Router's subscriber decorator)",
@@ -818,6 +844,8 @@ func init() {
 			"class topics: every string is a legal subscribe / publish topic for the Router (AddHandler godoc: 'subscribeTopic is a topic from which handler will receive messages', 'publishTopic is a topic to which router will produce messages returned by handlerFunc'; neither is interpreted by the Router, and watermill itself registers handlers with publish topic \"\" and a real publisher in gochannel.FanOut); 'accepted by the handler's publisher' is judged on the call Publish(publishTopic, outputs...) with exactly the string given to AddHandler; handlers that subscribe to one topic name get subscriber instances of their own (the harness identifies the subscription of a handler by subscriber instance + topic), publishers may be shared",
 			"class panic: 'panicked' covers every value given to panic, and run-time panics; the Router's logger is watermill.NopLogger (formatting the value is the Router's business: a panic value whose String / Error method panics is formatted by fmt without a new panic on the pinned tree); runtime.Goexit is not a panic and is not used",
 			"class async: a settlement made by a goroutine the handler function started counts as 'a settlement the handler made itself'; Message.Ack / Message.Nack may be called from any goroutine (they are guarded by the message's mutex; godoc: 'Ack is not blocking. Ack is idempotent. False is returned, if Nack is already sent'), so a call that returned true has settled the message and must not be overridden, and after both calls exactly one of the two channels is closed. How closely the two calls coincide depends on the machine (cores, load): that only decides how often the narrow interleavings are reached, never a verdict; wall-clock readings are used only to skip the feedback of contests in which one side was evidently descheduled",
+			"class errval: 'returned an error' / 'publishing failed' means that the returned value of type error is not nil - whatever its dynamic type, its text and the answers of its Cause / Unwrap / Is / As methods are; a typed nil pointer in the interface is a non-nil error (Go semantics). The Router's logger is watermill.NopLogger, so the Router itself never formats the value; an error value whose Is method panics makes the Router's own errors.Is call panic inside handleMessage, which is 'panicked': Nack either way",
+			"class buffered: a message counts as taken by the Router when it is no longer in the channel the subscriber returned from Subscribe (the Router's subscriber decorator is the only receiver of that channel); messages that are still in that channel's buffer when everything has come to rest were never received by the Router and are not judged (a real client nacks / redelivers what is left of its prefetch window). A taken message that the Router can no longer hand to the handler function because the handler's context has ended is legitimately nacked without the chain being invoked (the pinned subscriber decorator does that; same reading as in class end) - what C02 demands of it is that it is settled exactly once and not acked. Buffered channels are legal: Subscriber.Subscribe only promises a receive-only channel that is closed when the subscription ends",
 			"class multi: 'the handler's publisher' is the instance passed to AddHandler, seen through whatever decorators the Router was given; publisher decorators used by the harness do not change message values",
 		},
 		Run: run,
@@ -834,6 +862,8 @@ type mspec struct {
 	Hold string `json:"hold,omitempty"`  // class end: where the message is held when the subscription ends
 	PV   int    `json:"pv,omitempty"`    // class panic: index into panicVals of the value the message's panic is raised with
 	PVAt string `json:"pv_at,omitempty"` // class panic: where it is raised (handler function, middleware, Publish call)
+	EV   int    `json:"ev,omitempty"`    // class errval: index into errVals of the error value the message fails with
+	EVAt string `json:"ev_at,omitempty"` // class errval: what returns it (handler function, middleware, Publish call)
 	Y1   int    `json:"-"`
 	Y2   int    `json:"-"`
 }
@@ -876,6 +906,7 @@ type config struct {
 	Specs   []mspec
 
 	PanicVals bool // class panic
+	ErrVals   bool // class errval
 
 	// several handlers (class multi); empty = one handler of kind Kind with one publisher and one subscriber
 	Handlers []hspec
@@ -1318,7 +1349,7 @@ func expect(kind string, mw []string, h hbeh, pb string) expectation {
 		if !panicked {
 			failed = false
 		}
-	case "fail":
+	case "fail", "failwith":
 		if !panicked {
 			failed = true
 		}
@@ -1591,6 +1622,9 @@ func (st *state) handle(hd int, m *message.Message) ([]*message.Message, error) 
 	case "ok":
 		return outs, nil
 	case "err":
+		if sp.EVAt == evAtHandler {
+			return outs, errVals[sp.EV].Make()
+		}
 		return outs, errScriptedHandler
 	case "err-canceled":
 		return outs, context.Canceled
@@ -1715,6 +1749,20 @@ func (st *state) middleware(name string, owner int) message.HandlerMiddleware {
 				}
 				return outs, err
 			}
+		case "failwith":
+			// fails after the inner handler finished, with the error value drawn for the message; the messages the inner
+			// handler returned are returned together with the error
+			return func(m *message.Message) ([]*message.Message, error) {
+				i, known, _ := enter(m)
+				outs, _ := next(m)
+				v := evDefaultMW
+				if known {
+					if sp := st.cfg.Specs[i]; sp.EVAt == evAtMW {
+						v = sp.EV
+					}
+				}
+				return outs, errVals[v].Make()
+			}
 		case "recover":
 			return func(m *message.Message) (outs []*message.Message, err error) {
 				enter(m)
@@ -1828,6 +1876,11 @@ func (st *state) script(pub int, no int, topic string, msgs []*message.Message) 
 	if (beh == "panic-str" || beh == "panic-nil") && owner >= 0 {
 		if sp := st.cfg.Specs[owner]; sp.PVAt == pvAtPub {
 			panicVals[sp.PV].Do()
+		}
+	}
+	if (beh == "error" || beh == "error-once") && owner >= 0 {
+		if sp := st.cfg.Specs[owner]; sp.EVAt == evAtPub {
+			return errVals[sp.EV].Make()
 		}
 	}
 	switch beh {
@@ -2416,6 +2469,12 @@ func runBatch(e *vlib.Env, cfg config) (res vlib.Result) {
 			desc = fmt.Sprintf("message %d/%d (handler=%s publisher=%s kind=%s middleware=%v; panic value %s: raised in the %s)", i, n, h.Name, ownBeh, kind, cfg.MW,
 				panicVals[spc.PV].Name, map[string]string{pvAtHandler: "handler function", pvAtMW: "panicafter middleware", pvAtPub: "Publish call"}[spc.PVAt])
 		}
+		if spc.EVAt != "" {
+			res.Count("messages_with_drawn_error_value", 1)
+			res.Count("error_value_drawn_for_"+map[string]string{evAtHandler: "handler", evAtMW: "middleware", evAtPub: "publisher"}[spc.EVAt], 1)
+			desc = fmt.Sprintf("message %d/%d (handler=%s publisher=%s kind=%s middleware=%v; error value %s: returned by the %s)", i, n, h.Name, ownBeh, kind, cfg.MW,
+				errVals[spc.EV].Name, map[string]string{evAtHandler: "handler function", evAtMW: "failwith middleware", evAtPub: "Publish call"}[spc.EVAt])
+		}
 		if nh > 1 {
 			desc = fmt.Sprintf("message %d/%d (handler #%d of %d: %s, its publisher: instance %d of %v mode %q decorators %v -> %s, kind=%s middleware=%v)",
 				i, n, spc.Hd, nh, h.Name, ownPub, len(cfg.Pubs), cfg.PubMode, cfg.PubDecos, ownBeh, kind, chain)
@@ -2740,9 +2799,9 @@ func runBatch(e *vlib.Env, cfg config) (res vlib.Result) {
 	}
 	var shape []string
 	for _, s := range cfg.Specs {
-		shape = append(shape, fmt.Sprintf("%d/%d/%d/%s%s", s.Hd, s.H, s.P, s.Hold, pvName(s)))
+		shape = append(shape, fmt.Sprintf("%d/%d/%d/%s%s%s", s.Hd, s.H, s.P, s.Hold, pvName(s), evName(s)))
 	}
-	if nh == 1 && cfg.End == "" && cfg.Wiring == "" && !cfg.PanicVals {
+	if nh == 1 && cfg.End == "" && cfg.Wiring == "" && !cfg.PanicVals && !cfg.ErrVals {
 		shape = shape[:0]
 		for _, s := range cfg.Specs {
 			shape = append(shape, fmt.Sprintf("%d/%d", s.H, s.P))
